@@ -140,7 +140,14 @@ func (c c10) nest(src *ktrace.Trace, img ktrace.Image, label string, want map[st
 		viol("harness: %v", err)
 		return
 	}
-	tr := ktrace.Run(ktrace.Options{Dir: work, Argv: append([]string{binPath("vchild"), "recover", work}, crashKeys...), StopAfter: "OPENED"})
+	// the interrupted recovery at depth 2 runs with small write buffers (every piece of the table it flushes is a
+	// boundary of its own); deeper levels and the final comparison use the defaults
+	var env []string
+	if more == 1 || os.Getenv("VERIF_C10_SMALL") != "" {
+		env = []string{"VCHILD_SMALL_BUFFERS=1"}
+		label += " [interrupted recovery with 16-byte write buffer]"
+	}
+	tr := ktrace.Run(ktrace.Options{Dir: work, Argv: append([]string{binPath("vchild"), "recover", work}, crashKeys...), StopAfter: "OPENED", Env: env})
 	if tr.Err != nil {
 		viol("%s: tracer: %v", label, tr.Err)
 		return
